@@ -413,7 +413,8 @@ Theorem C10_roundtrip_simple_partial :
     run exact None (map (hold_tx like) hs ++ K' ++ T) = (dsG ++ dsK' ++ dsT, None)
     /\ map (fun d => (s_sh (d_post d), s_acb (d_post d))) dsG
        = map (fun h : hold_row => (s_sh (snd (fst h)), s_acb (snd (fst h)))) hs
-    /\ map d_post dsK' = map d_post dsK /\ map d_gain dsK' = map d_gain dsK.
+    /\ map d_post dsK' = map d_post dsK /\ map d_gain dsK' = map d_gain dsK
+    /\ Forall (fun d => exists g, In g (map (hold_tx like) hs ++ K') /\ d_sd d = t_sd g) (dsG ++ dsK').
 Proof. exact roundtrip_ranges. Qed.
 Check C10_roundtrip_simple_partial :
   forall regof like (hs : list hold_row) latest rg P K T dsP B1 st1 dsK bK stK dsT K',
@@ -436,7 +437,8 @@ Check C10_roundtrip_simple_partial :
     run exact None (map (hold_tx like) hs ++ K' ++ T) = (dsG ++ dsK' ++ dsT, None)
     /\ map (fun d => (s_sh (d_post d), s_acb (d_post d))) dsG
        = map (fun h : hold_row => (s_sh (snd (fst h)), s_acb (snd (fst h)))) hs
-    /\ map d_post dsK' = map d_post dsK /\ map d_gain dsK' = map d_gain dsK.
+    /\ map d_post dsK' = map d_post dsK /\ map d_gain dsK' = map d_gain dsK
+    /\ Forall (fun d => exists g, In g (map (hold_tx like) hs ++ K') /\ d_sd d = t_sd g) (dsG ++ dsK').
 Print Assumptions C10_roundtrip_simple_partial.
 
 (* the full statement of the simple mode at the level of the model's entry
